@@ -91,3 +91,18 @@ lemma('WF-determines-intercepts', P, shapes=dict(n=NQ),
       forall=lambda n: dict(p=anyobj(n), q=anyobj(n)),
       given=['spec.cov.wf(p)', 'spec.cov.wf(q)', 'p.intervals == q.intervals', 'p.slopes == q.slopes'],
       prove=['p._intercepts == q._intercepts'])
+
+# ---- histories: an evaluation before a pair of edits, and edits of a reloaded copy ---------------------------------------
+for n in (2, 3):
+    for i in range(1, n):
+        lemma('evaluate-pop-insert-evaluate[n=%d,i=%d]' % (n, i), P,
+              forall=dict(p=built(n), b=Real(0., 1.2), s=Real(-50., 50.), x=Real(0., 1.5), T=Real(50., 3000.)),
+              given=['spec.cov.valid_input(p.intervals, p.slopes)', 'b >= 0', 'x >= 0', 'T > 0'],
+              prove=[('function-of-the-current-breakpoints',
+                      'spec.cov.evaluate_edit_evaluate(p, %d, b, s, x, T) * %s == spec.cov.pwl(p.intervals, p.slopes, x)' % (i, RT)),
+                     ('inv', 'spec.cov.wf(p)')])
+    lemma('edit-of-a-reloaded-copy-leaves-the-original[n=%d]' % n, P,
+          forall=dict(p=built(n), b=Real(0., 1.2), s=Real(-50., 50.), x=Real(0., 1.5), T=Real(50., 3000.)),
+          given=['spec.cov.valid_input(p.intervals, p.slopes)', 'b >= 0', 'x >= 0', 'T > 0'],
+          prove=[('original-unchanged', 'spec.cov.edit_copy_keeps_original(p, b, s) and spec.cov.wf(p)'),
+                 ('copy-well-formed', 'spec.cov.wf(spec.cov.edit_copy_of(p, b, s))')])
